@@ -57,7 +57,7 @@ C01_E2 = ['PUSH_BACK', 'PUSH_FRONT', 'TRY_PUSH_BACK', 'TRY_PUSH_FRONT', 'POP_BAC
 prop('C01', 'every mutator implements bounded-deque semantics', stubs=[ROT_STUB], e1_configs_thorough=['plain'], bounds=dict(E1=E1_BOUNDS, E2=E2_BOUNDS),
      # second engine on the single-element operations: the same statements about the same functions from a different compilation (MIR -> C)
      e2=[dict(tag='std', features=['std', 'alloc'], jobs=e2_jobs([(s, 3, QN5) for s in C01_E2], [(s, 3, TN5) for s in C01_E2]))])
-prop('C02', 'single-element insertion never loses an element', bounds=dict(E1=E1_BOUNDS, E2=E2_BOUNDS),
+prop('C02', 'single-element insertion never loses an element', seed_extras=True, bounds=dict(E1=E1_BOUNDS, E2=E2_BOUNDS),
      e2=[dict(tag='std', features=['std', 'alloc'], jobs=e2_jobs([(s, 3, QN5) for s in C01_E2[:4]], [(s, 3, TN5) for s in C01_E2[:4]]))])
 prop('C03', 'every element dropped exactly once, never while reachable', thorough_reach=False, stubs=[ROT_STUB], code_failures_count=False)
 C04_E2 = ['TRUNCATE_BACK', 'TRUNCATE_FRONT', 'CLEAR', 'EXTEND_FROM_SLICE', 'FILL_WITH', 'CLONE_FROM', 'DRAIN_DROP']
@@ -73,21 +73,21 @@ prop('C05', 'panicking destructor: no second drop, buffer stays valid', e1_confi
 prop('C06', 'panic in user code leaves a valid buffer, nothing leaked', e1_configs=[], bounds=E2_BOUNDS,
      e2=[dict(tag='std', features=['std', 'alloc'],
               jobs=e2_jobs([(s, 2, QN5) for s in C06_SCENS], [(s, 2, TN5) for s in C06_SCENS]))])
-prop('C07', 'all views agree; mutable views alias exactly those elements', e1_configs_thorough=['plain'], stubs=[ROT_STUB])
-prop('C08', 'iterators obey the double-ended exact-size protocol', e1_configs_thorough=['plain'])
+prop('C07', 'all views agree; mutable views alias exactly those elements', seed_extras=True, e1_configs_thorough=['plain'], stubs=[ROT_STUB])
+prop('C08', 'iterators obey the double-ended exact-size protocol', seed_extras=True, e1_configs_thorough=['plain'])
 prop('C09', 'drain removes exactly the range, keeps the rest in order', bounds=dict(E1=E1_BOUNDS, E2=E2_BOUNDS), e1_configs_thorough=['plain'],
      e2=[dict(tag='std', features=['std', 'alloc'], jobs=e2_jobs([('DRAIN_DROP', 3, QN5)], [('DRAIN_DROP', 3, TN5)]))])
-prop('C10', 'leaking a drain is safe', e1_configs=['default', 'plain'])
+prop('C10', 'leaking a drain is safe', seed_extras=True, e1_configs=['default', 'plain'])
 prop('C11', 'panics exactly when documented, otherwise total', thorough_reach=False, bounds=dict(E1=E1_BOUNDS, E2=E2_BOUNDS),
      e2=[dict(tag='std', features=['std', 'alloc'], jobs=e2_jobs([(s, 0, QN5) for s in C11_SCENS], [(s, 0, TN5) for s in C11_SCENS]))])
-prop('C12', 'constructors and conversions')
-prop('C13', 'Eq/Ord/Hash/Debug depend only on logical contents')
-prop('C14', 'byte-stream I/O')
-prop('C16', 'embedded-io(-async) == std::io', e1_configs=['eio', 'eio-async', 'eio-both'])
-prop('C17', 'no operation allocates; builds without std/alloc', thorough_reach=False, e1_configs=['nodefault', 'alloc', 'default'], only_desc='ALLOCATION', build_clause=True,
+prop('C12', 'constructors and conversions', seed_extras=True)
+prop('C13', 'Eq/Ord/Hash/Debug depend only on logical contents', seed_extras=True)
+prop('C14', 'byte-stream I/O', seed_extras=True)
+prop('C16', 'embedded-io(-async) == std::io', e1_configs=['eio', 'eio-async', 'eio-both'], parallel_configs=True)
+prop('C17', 'no operation allocates; builds without std/alloc', thorough_reach=False, e1_configs=['nodefault', 'alloc', 'default'], parallel_configs=True, only_desc='ALLOCATION', build_clause=True,
      stubs=['alloc::alloc::{alloc, alloc_zeroed, realloc} -> panic!("ALLOCATION")', ROT_STUB])
 C18_N = [0, 3]
-C18_E2 = [(s, 0, C18_N) for s in sorted(set(C05_SCENS + C06_SCENS + C11_SCENS))] + [('FROM_ARRAY', 1, [(0, 2), (3, 5)])]
+C18_E2 = [(s, 0, C18_N) for s in ('TRUNCATE_BACK', 'EXTEND_FROM_SLICE', 'CLONE_FROM', 'DRAIN_DROP', 'OVER_RANGE_ITER', 'OVER_RANGE_ITERMUT', 'EQ')] + [('FROM_ARRAY', 1, [(0, 2), (3, 5)])]
 C18_E2_T = [(s, 0, [0, 1, 2, 3, 4]) for s in sorted(set(C05_SCENS + C06_SCENS + C11_SCENS))] + [('FROM_ARRAY', 1, FA_Q)]
 prop('C18', 'unstable feature does not change behaviour', thorough_reach=False, e1_configs=[], differential=('default', 'unstable'), stubs=[ROT_STUB],
      bounds=dict(E1=E1_BOUNDS, E2=E2_BOUNDS, capacities_quick=C18_N),
@@ -96,4 +96,4 @@ prop('C18', 'unstable feature does not change behaviour', thorough_reach=False, 
 prop('C19', 'zero-sized elements and extreme capacities', bounds=dict(E1=E1_BOUNDS, E2='add_mod/sub_mod: all 64-bit x, y <= m, m > 0 (no bound on N)'),
      e2=[dict(tag='std', features=['std', 'alloc'], unwind=lambda n, m: 4, timeout=dict(quick=900, thorough=3600),
               jobs=dict(quick=[('ADD_MOD', 0, [1]), ('SUB_MOD', 9, [1]), ('SUB_MOD', 0, [1])], thorough=[('ADD_MOD', 0, [1]), ('SUB_MOD', 9, [1]), ('SUB_MOD', 0, [1])]))])
-prop('C20', 'constant-time operations move O(1) elements', e1_configs_thorough=['plain'], stubs=[ROT_STUB], code_failures_count=False)
+prop('C20', 'constant-time operations move O(1) elements', seed_extras=True, e1_configs_thorough=['plain'], stubs=[ROT_STUB], code_failures_count=False)
